@@ -5,16 +5,18 @@
      one injected fault at any call, use_ok w0 -> use_ok (world after the history).
    It is FALSE of the code as it is: C10_replace_refuted (a replace whose removal of the old workload
    fails leaves old and new workload recorded on one allocation).  What is proved:
-     * for EVERY world and EVERY fault position: realloc (whole operation), the locked transaction of
-       one workload of remove and of dissociate, add-node keep the invariant;
-     * for every fault position on explicit scenario families: create (C10_create_scenarios, together
-       with C12) and set-node (in C11.v);
+     * for EVERY world and EVERY fault position: create (whole operation, every feasible plan, C10_create),
+       realloc (whole operation), the locked transaction of one workload of remove and of dissociate,
+       add-node keep the invariant;
+     * for every fault position on explicit scenario families: create again with usage <= capacity
+       (C10_create_scenarios, together with C12) and set-node (in C11.v);
      * every fault address (method, target, ordinal) of the harness is one of the positions k
        (C10_fault_addresses).
    use_ok w := forall plugin record p of w, p_use p = sum of w_res over the workloads recorded on p_node p. *)
 From Coq Require Import List Bool Arith ZArith.
 From Verif Require Import Base.Effects Calcium.World Calcium.Ops Calcium.Run Calcium.EffectsProofs
-  Calcium.OpsProofs Calcium.OpsProofs2 Calcium.InvProofs Calcium.Sweeps Calcium.Examples.
+  Calcium.OpsProofs Calcium.OpsProofs2 Calcium.InvProofs Calcium.Sweeps Calcium.DeployProofs Calcium.DeployProofs2
+  Calcium.CreateProofs Calcium.CreateProofs2 Calcium.Examples.
 
 Theorem C10_realloc : forall id req w k, wf w -> use_ok w ->
   use_ok (fst (fst (crunk (realloc id req) w k))).
@@ -41,6 +43,12 @@ Theorem C10_add_node : forall n p cap w k,
 Proof. exact add_node_keeps_usage. Qed.
 Print Assumptions C10_add_node.
 
+(* create, every world in which the op index is fresh, every feasible plan or refusal, every fault position *)
+Theorem C10_create : forall opi pod r plan w k, create_hyp w opi r plan -> use_ok w ->
+  use_ok (fst (fst (crunk (create opi pod r plan) w k))).
+Proof. exact create_keeps_usage. Qed.
+Print Assumptions C10_create.
+
 (* create: usage = sum and usage <= capacity (and C12) after every fault position, on the scenario family *)
 Theorem C10_create_scenarios : forall w o, (w = busy3 \/ w = base3) -> In o create_ops ->
   forall k, is_send_at (script_of o) (prep w o) k = false ->
@@ -66,6 +74,7 @@ Proof. exact (run_is_runk call reply world key key_eqb key_of exec fail_reply). 
 Print Assumptions C10_fault_addresses.
 
 (* the hypotheses are satisfiable *)
-Theorem C10_hypotheses_hold : wf busy3v /\ use_ok busy3v.
-Proof. exact (conj busy3_wf busy3_use_ok). Qed.
+Theorem C10_hypotheses_hold : wf busy3v /\ use_ok busy3v /\
+  create_hyp base3v 9 (50, 100)%Z (Some ((0%nat, 2%nat) :: (1%nat, 1%nat) :: nil)).
+Proof. exact (conj busy3_wf (conj busy3_use_ok create_hyp_example)). Qed.
 Print Assumptions C10_hypotheses_hold.
